@@ -1,5 +1,6 @@
 import WhVerif.Props.C01
 import WhVerif.Lemmas.C02Thm
+import WhVerif.Lemmas.C02Compose
 import WhVerif.Lemmas.C02Example
 import WhVerif.Lemmas.C02PipelineExample
 /-!
@@ -63,16 +64,8 @@ theorem pipeline_truth (h : ErrFree I hap src) (hwf : WF I) (β : List Bool) (τ
     (hw : totalCost I β τ = dpCost I) (r0 r c : Nat) (hconn : Connected I r0 r) (hcov : covers I r c)
     (hc : c < I.ncols) :
     getAlleles I c (restrict β (I.activeAt c)) (τ.getD c 0) =
-      some [if β.getD r0 false = src r0 then (hap c, 1 - hap c) else (1 - hap c, hap c)] := by
-  have hz : totalCost I β τ = some 0 := by rw [hw]; exact WhVerif.C02.errfree_dpCost_zero h hwf
-  rw [WhVerif.C02.zero_cost_no_tie h hz c hc (τ.getD c 0) r hcov]
-  have hr := WhVerif.C02.zero_cost_connected h hz hconn
-  have : (β.getD r false = src r) ↔ (β.getD r0 false = src r0) := by
-    rw [hr]
-    cases src r <;> cases src r0 <;> cases β.getD r0 false <;> simp
-  by_cases h0 : β.getD r0 false = src r0
-  · rw [if_pos h0, if_pos (this.mpr h0)]
-  · rw [if_neg h0, if_neg (fun hh => h0 (this.mp hh))]
+      some [if β.getD r0 false = src r0 then (hap c, 1 - hap c) else (1 - hap c, hap c)] :=
+  WhVerif.C02.pipeline_truth_solver h hwf β τ hw r0 r c hconn hcov hc
 
 /-- non-vacuity: the example instance of Lemmas/C02Example.lean is error-free, sorted and connected -/
 example : ErrFree exInst exHap exSrc ∧ WF exInst ∧ Connected exInst 0 2 := ⟨exErrFree, exInst_wf, exConnected⟩
